@@ -229,8 +229,9 @@ def euler_rotation_matrix(
             matrix[..., 0, 0] = 1
             matrix[..., 1, 1] = 1
             matrix[..., 2, 2] = 1
+            rotation = None
             for i, char in enumerate(order):
-                rot = matrix.new_empty(matrix.shape)
+                rot = matrix.new_empty(matrix.shape[:-2] + (D, D))
                 if char == "X":
                     rot[..., 0, 0] = 1
                     rot[..., 0, 1] = 0
@@ -261,7 +262,8 @@ def euler_rotation_matrix(
                     rot[..., 2, 0] = 0
                     rot[..., 2, 1] = 0
                     rot[..., 2, 2] = 1
-                matrix = rot if i == 0 else torch.matmul(matrix, rot)
+                rotation = rot if rotation is None else torch.matmul(rotation, rot)
+            matrix[..., :D, :D] = rotation
     else:
         raise ValueError(
             f"Expected 'angles' to be scalar or tensor with last dimension size 3, got {N}"
